@@ -38,6 +38,8 @@ var abiShapes = []struct {
 func runAUG(c *Ctx) (obls []Obl) {
 	a := newAgg(c, &obls)
 	defer a.flush()
+	augTypeStr(c, a)
+	augLoad(c, a)
 	fn := c.MustFunc(&obls, "AUG-words", "stack", "", "augmentCall")
 	if fn == nil {
 		return
